@@ -164,6 +164,13 @@ class StmtMixin(CallMixin):
         s.ghost["perm"] = (p, q)
         return [(NORMAL, None, s)]
 
+    def val_terms(self, v):
+        if isinstance(v, T):
+            return [v.t == v.t] if not z3.is_bool(v.t) else [v.t]
+        if isinstance(v, Tup):
+            return [t for x in v.items for t in self.val_terms(x)]
+        return []
+
     # ---------------- assignment -----------------
     def bind_target(self, tgt, val, st):
         if isinstance(tgt, ast.Name):
@@ -408,7 +415,9 @@ class StmtMixin(CallMixin):
             sb.ghost["idx"][k] = i
             si = self.inv_state(sb, k, i)
             sb = self.assume(sb, [self.truthy(self.ev1(self.cur_contract.parsed(cl), si)) for cl in invs])
-            sb = self.bind_target(node.target, self.it_elem(it, i), sb)
+            elem = self.it_elem(it, i)
+            sb = self.bind_target(node.target, elem, sb)
+            sb = self.learn(sb, self.val_terms(elem))
             res = []
             if self.feasible(sb):
                 for tag, p, s2 in self.exec_block(node.body, sb):
